@@ -73,7 +73,18 @@ IpvVals == { <<4>>, <<6>>, <<4,6>> }
 MacVals == { <<Mac1>>, <<Mac2>>, <<Mac1, Mac2>> }
 DscpVals == { <<0>>, <<63>>, <<1, 63>> }
 PnameVals == { <<PnCurl>>, <<Pn16>>, <<Pn17>>, <<Pn15>>, <<PnCurl, Pn16b>> }
-DomGroupVals == { <<[key |-> "suffix", vals |-> <<DomAB>>]>>, <<[key |-> "full", vals |-> <<DomAB>>]>>,
+\* geodata (geosite.dat written by the harness): SHOP = suffix a.b ; full ba.b @ads ; keyword x. @ads      OTHER = suffix b
+\* a value geosite:code expands to all entries of the code, geosite:code@attr to the entries carrying the attribute
+GsShop == <<"s","h","o","p">>
+GsShopAds == <<"s","h","o","p","@","a","d","s">>
+GsOther == <<"o","t","h","e","r">>
+GeoEntry(k, p) == [key |-> k, pat |-> p]
+GeoSite(v) == CASE v = GsShop -> <<GeoEntry("suffix", DomAB), GeoEntry("full", DomBAB), GeoEntry("keyword", <<"x",".">>)>>
+                [] v = GsShopAds -> <<GeoEntry("full", DomBAB), GeoEntry("keyword", <<"x",".">>)>>
+                [] OTHER -> <<GeoEntry("suffix", DomB)>>
+DomGroupVals == { <<[key |-> "geosite", vals |-> <<GsShop>>]>>, <<[key |-> "geosite", vals |-> <<GsShopAds>>]>>,
+                  <<[key |-> "geosite", vals |-> <<GsOther, GsShopAds>>]>>,
+                   <<[key |-> "suffix", vals |-> <<DomAB>>]>>, <<[key |-> "full", vals |-> <<DomAB>>]>>,
                   <<[key |-> "keyword", vals |-> <<DomB>>]>>,
                   <<[key |-> "regex", vals |-> <<[pre |-> TRUE, post |-> FALSE, alts |-> <<<<"x",".">>>>]>>]>>,
                   <<[key |-> "full", vals |-> <<DomB>>], [key |-> "suffix", vals |-> <<<<".","a",".","b">>>>]>>,
@@ -104,7 +115,8 @@ Reduced(fn) == CASE fn = "ip" -> {G(<<P4(10,0,0,0,8)>>), G(<<P4(10,1,2,3,32), Pf
                  [] fn = "mac" -> {G(<<Mac1>>)}
                  [] fn = "dscp" -> {G(<<1, 63>>)}
                  [] fn = "pname" -> {G(<<PnCurl>>)}
-                 [] fn = "domain" -> {<<[key |-> "suffix", vals |-> <<DomAB>>]>>,
+                 [] fn = "domain" -> {<<[key |-> "geosite", vals |-> <<GsShop>>]>>, <<[key |-> "geosite", vals |-> <<GsShopAds>>]>>,
+                                      <<[key |-> "suffix", vals |-> <<DomAB>>]>>,
                                       <<[key |-> "full", vals |-> <<DomB>>], [key |-> "suffix", vals |-> <<<<".","a",".","b">>>>]>>}
 ReducedCondUniverse == UNION {{Cond(fn, n, g) : n \in BOOLEAN, g \in Reduced(fn)} : fn \in Fns}
 CondUniverse == IF Level = "single" THEN FullCondUniverse ELSE ReducedCondUniverse
@@ -131,7 +143,9 @@ AtomHolds(fn, key, v, pkt) ==
       [] fn = "mac"       -> v = pkt.mac
       [] fn = "dscp"      -> v = pkt.dscp
       [] fn = "pname"     -> pkt.pname # PnNone /\ Trunc16(v) = pkt.pname
-      [] fn = "domain"    -> pkt.domain # DomNone /\ PatM(key, v, pkt.domain)
+      [] fn = "domain"    -> pkt.domain # DomNone /\
+                               (IF key = "geosite" THEN \E i \in 1..Len(GeoSite(v)) : PatM(GeoSite(v)[i].key, GeoSite(v)[i].pat, pkt.domain)
+                                ELSE PatM(key, v, pkt.domain))
 
 AnyHolds(c, pkt) == \E gi \in 1..Len(c.groups) : \E vi \in 1..Len(c.groups[gi].vals) :
                         AtomHolds(c.fn, c.groups[gi].key, c.groups[gi].vals[vi], pkt)
@@ -271,7 +285,19 @@ DedupSeq(s, seen) == IF s = <<>> THEN <<>>
 DedupCond(c) == [c EXCEPT !.groups = [gi \in 1..Len(c.groups) |-> [c.groups[gi] EXCEPT !.vals = DedupSeq(@, {})]]]
 Dedup(prog) == [i \in 1..Len(prog) |-> [prog[i] EXCEPT !.conds = [ci \in 1..Len(prog[i].conds) |-> DedupCond(prog[i].conds[ci])]]]
 
-Optimize(prog) == Dedup(MergeAdjacent(SortAnd(prog)))
+\* DatReaderOptimizer: geosite values are replaced by the entries of the data file, regrouped by pattern kind
+RECURSIVE EntryGroups(_, _, _)
+EntryGroups(acc, es, i) == IF i > Len(es) THEN acc ELSE EntryGroups(AddGroup(acc, [key |-> es[i].key, vals |-> <<es[i].pat>>]), es, i + 1)
+RECURSIVE GeoVals(_, _, _)
+GeoVals(acc, vals, i) == IF i > Len(vals) THEN acc ELSE GeoVals(EntryGroups(acc, GeoSite(vals[i]), 1), vals, i + 1)
+RECURSIVE ExpandGroups(_, _, _)
+ExpandGroups(acc, gs, i) == IF i > Len(gs) THEN acc
+                            ELSE IF gs[i].key = "geosite" THEN ExpandGroups(GeoVals(acc, gs[i].vals, 1), gs, i + 1)
+                            ELSE ExpandGroups(AddGroup(acc, gs[i]), gs, i + 1)
+DatExpandCond(c) == IF c.fn = "domain" THEN [c EXCEPT !.groups = ExpandGroups(<<>>, c.groups, 1)] ELSE c
+DatExpand(prog) == [i \in 1..Len(prog) |-> [prog[i] EXCEPT !.conds = [ci \in 1..Len(prog[i].conds) |-> DatExpandCond(prog[i].conds[ci])]]]
+
+Optimize(prog) == Dedup(MergeAdjacent(SortAnd(DatExpand(prog))))
 
 (* ------------------------------------------------------------------ packet sets *)
 FieldsOf(fn) == CASE fn = "ip" -> {"dip"} [] fn = "sip" -> {"sip"} [] fn = "port" -> {"dport"} [] fn = "sport" -> {"sport"}
@@ -329,11 +355,11 @@ Spec == Init /\ [][Next]_vars
 Closed == cur = <<>> /\ prog # <<>>
 
 (* ------------------------------------------------------------------ properties checked by TLC *)
-ScanRefines == Closed => \A pkt \in PktsFor(prog) : UScan(LowerProg(prog, fb), pkt) = Decide(prog, fb, pkt)
-KernRefines == Closed => \A pkt \in PktsFor(prog) : KScan(LowerProg(prog, fb), pkt) = IntendedDiff(Decide(prog, fb, pkt), pkt)
+ScanRefines == Closed => \A pkt \in PktsFor(prog) : UScan(LowerProg(DatExpand(prog), fb), pkt) = Decide(prog, fb, pkt)
+KernRefines == Closed => \A pkt \in PktsFor(prog) : KScan(LowerProg(DatExpand(prog), fb), pkt) = IntendedDiff(Decide(prog, fb, pkt), pkt)
 OptimizePreserves == Closed => \A pkt \in PktsFor(prog) : Decide(Optimize(prog), fb, pkt) = Decide(prog, fb, pkt)
 \* well-formedness of the lowered array
-LowerWF == Closed => LET es == LowerProg(prog, fb) IN
+LowerWF == Closed => LET es == LowerProg(DatExpand(prog), fb) IN
               /\ es[Len(es)].type = "fallback" /\ es[Len(es)].ob = "OUT"
               /\ \A i \in 1..(Len(es) - 1) : es[i].ob = "OR" => (es[i + 1].type = es[i].type /\ es[i + 1].not = es[i].not)
 
